@@ -37,6 +37,7 @@ namespace
     {
         int64_t start = 0, interval = 1;
         bool planned = false;
+        int mg = 0; // which manager it is planned in
         int64_t finish() const { return start + interval; }
         bool due(int64_t now) const { return planned && now - start >= interval; }
     };
@@ -53,7 +54,10 @@ namespace
         unsigned weight(Tier) const override { return 6; }
 
         // run state
-        igris::timer_manager *mgr = nullptr;
+        igris::timer_manager *mgr = nullptr;  // the manager whose exec() is running / that plan ops address
+        igris::timer_manager *mgrs[2] = {nullptr, nullptr};
+        int cur_mg = 0;
+        int nmgr = 1;
         std::vector<std::unique_ptr<SimTimer>> tim;
         std::vector<Model> model;
         std::vector<Script> script;
@@ -76,7 +80,7 @@ namespace
             unsigned script_pm = (unsigned)r.pick<int64_t>({0, 100, 300});
             // where on the time axis the run starts: far positive, around zero, negative (signed/unsigned mistakes live there)
             int64_t origin = r.pick<int64_t>({1000, 1000, 0, -30, -3000, 5});
-            p.cfg = {nt, origin};
+            p.cfg = {nt, origin, r.chance(1, 3) ? 1 : 0};
             int nops = (int)r.range(5, tier == THOROUGH ? 120 : 60);
             auto interval = [&]() -> int64_t {
                 if (equal_deadlines) return r.pick<int64_t>({1, 2, 4}) * period;
@@ -96,7 +100,7 @@ namespace
                 {
                     int64_t iv = interval();
                     int64_t back = r.chance(1, 3) ? r.range(0, 3 * iv) : (r.chance(1, 2) ? 0 : -r.range(0, 3 * period));
-                    p.ops.push_back({OP_PLAN, (int64_t)r.below(nt), back, iv});
+                    p.ops.push_back({OP_PLAN, (int64_t)r.below(nt), back, iv, (int64_t)r.below(2)});
                 }
                 else if (k < 780)
                     p.ops.push_back({OP_UNPLAN, (int64_t)r.below(nt)});
@@ -129,26 +133,28 @@ namespace
         }
 
         // ---- model helpers
-        int64_t min_deadline() const
+        int64_t min_deadline(int mg) const
         {
             int64_t m = INT64_MAX;
             for (auto &t : model)
-                if (t.planned && t.finish() < m) m = t.finish();
+                if (t.planned && t.mg == mg && t.finish() < m) m = t.finish();
             return m;
         }
-        bool any_planned() const
+        bool any_planned(int mg) const
         {
             for (auto &t : model)
-                if (t.planned) return true;
+                if (t.planned && t.mg == mg) return true;
             return false;
         }
 
         void do_plan(int t, int64_t start, int64_t iv)
         {
-            mgr->plan(*tim[t], start, iv);
+            mgrs[cur_mg]->plan(*tim[t], start, iv);
             model[t].start = start;
             model[t].interval = iv;
+            if (model[t].planned && model[t].mg != cur_mg) probe("timer_moved_between_managers");
             model[t].planned = true;
+            model[t].mg = cur_mg;
         }
         void do_unplan(int t)
         {
@@ -174,14 +180,17 @@ namespace
                     violate("C16/rearm", "%s: timer %d finish=%lld model=%lld", where, i, (long long)tim[i]->finish(),
                             (long long)model[i].finish());
             }
-            bool e = !any_planned();
-            if (mgr->empty() != e) violate("C16/empty", "%s: empty()=%d model=%d", where, (int)mgr->empty(), (int)e);
-            if (!e)
+            for (int g = 0; g < nmgr; g++)
             {
-                int64_t mi = mgr->minimal_interval(now);
-                if (mi != min_deadline() - now)
-                    violate("C16/minimal_interval", "%s: minimal_interval=%lld model=%lld", where, (long long)mi,
-                            (long long)(min_deadline() - now));
+                bool e = !any_planned(g);
+                if (mgrs[g]->empty() != e) violate("C16/empty", "%s: manager %d empty()=%d model=%d", where, g, (int)mgrs[g]->empty(), (int)e);
+                if (!e)
+                {
+                    int64_t mi = mgrs[g]->minimal_interval(now);
+                    if (mi != min_deadline(g) - now)
+                        violate("C16/minimal_interval", "%s: manager %d minimal_interval=%lld model=%lld", where, g, (long long)mi,
+                                (long long)(min_deadline(g) - now));
+                }
             }
         }
 
@@ -197,7 +206,8 @@ namespace
             if (!m.due(now))
                 violate("C16/early", "timer %d fired early: now=%lld start=%lld interval=%lld", id, (long long)now,
                         (long long)m.start, (long long)m.interval);
-            int64_t md = min_deadline();
+            if (m.mg != cur_mg) violate("C16/fired-by-wrong-manager", "timer %d is planned in manager %d but was fired by exec() of manager %d", id, m.mg, cur_mg);
+            int64_t md = min_deadline(cur_mg);
             if (m.finish() != md)
                 violate("C16/order", "timer %d (deadline %lld) fired before a pending timer with deadline %lld", id,
                         (long long)m.finish(), (long long)md);
@@ -257,8 +267,12 @@ namespace
             Result res;
             tr = &t;
             n = (int)mod(p.c(0) - 1, 8) + 1;
-            igris::timer_manager manager;
+            igris::timer_manager manager, manager2;
             mgr = &manager;
+            mgrs[0] = &manager;
+            mgrs[1] = &manager2;
+            nmgr = (int)mod(p.c(2, 0), 2) + 1;
+            cur_mg = 0;
             tim.clear();
             model.assign(n, Model());
             script.assign(n, Script());
@@ -296,8 +310,14 @@ namespace
                             if (m.planned && m.due(now) && ++seen[m.finish()] == 2) probe("equal_deadlines");
                     }
                     in_exec = true;
-                    mgr->exec(now);
+                    // every manager's loop runs at this tick (second manager first on odd ticks)
+                    for (int gi = 0; gi < nmgr; gi++)
+                    {
+                        cur_mg = (gi + (int)(dt & 1)) % nmgr;
+                        mgrs[cur_mg]->exec(now);
+                    }
                     in_exec = false;
+                    cur_mg = 0;
                     for (int i = 0; i < n; i++)
                         if (model[i].due(now))
                             violate("C16/missed", "after exec(%lld) timer %d is still due (start=%lld interval=%lld)",
@@ -310,8 +330,10 @@ namespace
                 {
                     int64_t iv = mod(arg(o, 3) - 1, 5000) + 1;
                     int64_t back = arg(o, 2) % 20000;
-                    t.ev("plan t%d start=now-%lld iv=%lld", ti, (long long)back, (long long)iv);
+                    cur_mg = (int)mod(arg(o, 4), nmgr);
+                    t.ev("plan t%d in manager %d start=now-%lld iv=%lld", ti, cur_mg, (long long)back, (long long)iv);
                     do_plan(ti, now - back, iv);
+                    cur_mg = 0;
                     if (back >= iv) fault("planned_overdue");
                     break;
                 }
@@ -335,7 +357,7 @@ namespace
                     if (model[ti].planned)
                     {
                         t.ev("replan-same t%d", ti);
-                        mgr->plan(*tim[ti]);
+                        mgrs[model[ti].mg]->plan(*tim[ti]);
                         probe("replan_linked");
                     }
                     break;
